@@ -123,7 +123,8 @@ res = []
 for f in files:
     beh = tlc.parse_sim_file(Path(f)) if f.endswith(".json") is False else [tuple(x) for x in json.load(open(f))]
     # a store named after a long host name (Executor: "sCasc" + host; here a 19-character fully qualified node name)
-    r = shm.replay(beh, sizes, cap, fast_disk="/sim_fast" in f, prefix="sCascnode-1234.cluster01" if "/sim_longname" in f else "t")
+    r = shm.replay(beh, sizes, cap, fast_disk="/sim_fast" in f, prefix="sCascnode-1234.cluster01" if "/sim_longname" in f else "t",
+                   configured=cap + 3 if "/sim_trimmed" in f else None)
     r["file"] = f
     r["actions"] = [list(map(str, s["last"])) for _, s in beh[1:]]
     r["tainted"] = [sorted(s["tainted"]) for _, s in beh[1:]]
@@ -230,6 +231,8 @@ def run_engine(ctx: Ctx) -> dict:
     # the "fast disk" schedule: page-out jobs run to their end inside the submit (Shm!FastDiskSpec)
     sims += [(f, KEYS, CAP) for f in _simulate(scratch, "fast", consts(AllowStale="TRUE", MaxClock="30", MaxReaders="3"), num // 2, 40,
                                                ctx.seed + 14, spec="FastDiskSpec")]
+    # a store configured with more capacity than /dev/shm offers works with what there is (the model's Cap)
+    sims += [(f, KEYS, CAP) for f in _simulate(scratch, "trimmed", consts(MaxClock="30"), max(num // 4, 50), 30, ctx.seed + 16)]
     sims += [(f, KEYS, CAP) for f in _simulate(scratch, "longname", consts(MaxClock="30"), max(num // 4, 50), 30, ctx.seed + 15)]
     groups: dict[tuple, list[Path]] = {}
     for f, sizes, cap in sims:
